@@ -3,7 +3,7 @@
 (* (<<name, <<bits>>>>), w (type width in bits).  The state is the raw value behind the variable    *)
 (* (SDO: LocalNode.data_store; PDO: PdoMap.data), as a limb integer.                                *)
 EXTENDS Views, Json, IOUtils
-VInit(t) == [raw |-> Limb(FALSE, <<>>)]
+VInit(t) == [raw |-> Limb(FALSE, <<>>), descs |-> t.descs]      \* descs: the description table as it is now
 VShow(st) == st
 Bad(st, why) == [ok |-> FALSE, why |-> why, st |-> st]
 Good(st) == [ok |-> TRUE, why |-> "", st |-> st]
@@ -13,34 +13,39 @@ BitSet(e, t) == IF e.spelling = "name"
                          : j \in 1..Len(t.bitdefs[(CHOOSE i \in 1..Len(t.bitdefs) : t.bitdefs[i][1] = e.name)][2])}
                   ELSE {e.bits[j] : j \in 1..Len(e.bits)}
 VStep(st, e, t) ==
-    CASE e.e = "setraw" -> IF e.ok THEN Good([raw |-> Lim(e.v)]) ELSE Bad(st, "HARNESS: raw assignment failed")
+    CASE e.e = "setraw" -> IF e.ok THEN Good([st EXCEPT !.raw = Lim(e.v)]) ELSE Bad(st, "HARNESS: raw assignment failed")
       [] e.e = "phys_set" ->
            IF ~e.ok THEN Bad(st, "assigning a physical value raised")
            ELSE IF ~NearestRaw(ToInt(Lim(e.after)), e.vn, e.vd, t.fn, t.fd)
              THEN Bad(st, "raw value is not the nearest integer of value / factor")
-           ELSE Good([raw |-> Lim(e.after)])
+           ELSE Good([st EXCEPT !.raw = Lim(e.after)])
       [] e.e = "phys_get" ->
            IF ~e.ok THEN Bad(st, "reading the physical value raised")
            ELSE IF ~PhysReadOk(e.P, ToInt(st.raw), t.fn, t.K) THEN Bad(st, "physical value is not raw * factor")
            ELSE Good(st)
       [] e.e = "desc_set" ->
-           LET i == ValueOf(t.descs, e.name) IN
+           LET i == ValueOf(st.descs, e.name) IN
            IF i = 0 THEN (IF e.ok THEN Bad(st, "unknown description accepted") ELSE Good(st))
            ELSE IF ~e.ok THEN Bad(st, "assigning a defined description raised")
-           ELSE IF ToInt(Lim(e.after)) # t.descs[i][1] THEN Bad(st, "description did not write exactly the value it names")
-           ELSE Good([raw |-> Lim(e.after)])
+           ELSE IF ToInt(Lim(e.after)) # st.descs[i][1] THEN Bad(st, "description did not write exactly the value it names")
+           ELSE Good([st EXCEPT !.raw = Lim(e.after)])
       [] e.e = "desc_get" ->
-           LET i == DescOf(t.descs, ToInt(st.raw)) IN
+           LET i == DescOf(st.descs, ToInt(st.raw)) IN
            IF i = 0 THEN (IF e.ok THEN Bad(st, "description returned for a value that has none") ELSE Good(st))
            ELSE IF ~e.ok THEN Bad(st, "reading the description of a described value raised")
-           ELSE IF e.name # t.descs[i][2] THEN Bad(st, "description of the current value is wrong")
+           ELSE IF e.name # st.descs[i][2] THEN Bad(st, "description of the current value is wrong")
            ELSE Good(st)
+      [] e.e = "redesc" ->      \* the application describes a value anew (or describes one more value)
+           LET i == DescOf(st.descs, e.val) IN
+           IF ~e.ok THEN Bad(st, "HARNESS: add_value_description failed")
+           ELSE Good([st EXCEPT !.descs = IF i = 0 THEN Append(st.descs, <<e.val, e.name>>)
+                                           ELSE [st.descs EXCEPT ![i] = <<e.val, e.name>>]])
       [] e.e = "bits_set" ->
            LET bs == BitSet(e, t)
                want == SetField(Bits32(st.raw), bs, Bits32(Lim(e.val)))
            IN IF ~e.ok THEN Bad(st, "assigning a bit field raised")
               ELSE IF Bits32(Lim(e.after)) # want THEN Bad(st, "bit-field assignment did not change exactly those bits")
-              ELSE Good([raw |-> Lim(e.after)])
+              ELSE Good([st EXCEPT !.raw = Lim(e.after)])
       [] e.e = "bits_get" ->
            LET bs == BitSet(e, t)
                got == Bits32(Lim(e.val))
